@@ -138,6 +138,18 @@ func SelfAuthentic(v *accountant.Vertex, keys map[string]ed25519.PublicKey) (boo
 	return true, ""
 }
 
+// TrxAuthentic verifies the transaction alone: hash and issuer signature, and the receiver signature when present.
+func TrxAuthentic(t *transaction.Transaction) (bool, string) {
+	msg := TrxMessage(t)
+	if !verifySig(msg, t.IssuerSignature, t.Hash, t.IssuerAddress, nil) {
+		return false, "issuer signature or transaction hash does not verify"
+	}
+	if len(t.ReceiverSignature) != 0 && !verifySig(msg, t.ReceiverSignature, t.Hash, t.ReceiverAddress, nil) {
+		return false, "receiver signature does not verify"
+	}
+	return true, ""
+}
+
 // Fingerprint is a digest of every field of the vertex (used to cache verification and to compare content).
 func Fingerprint(v *accountant.Vertex) H {
 	h := sha256.New()
